@@ -454,6 +454,13 @@ func (x *Exec) subAddr(si *StructI, i int, addr Term) Term {
 		x.axioms[f] = []string{fmt.Sprintf("(forall ((a!s Int)) (! (=> (not (= a!s 0)) (not (= (%s a!s) 0))) :pattern ((%s a!s))))", f, f),
 			// an embedded struct lives inside its enclosing object: both existed at entry, or neither
 			fmt.Sprintf("(forall ((a!s Int)) (! (= (< (%s a!s) brk!) (< a!s brk!)) :pattern ((%s a!s))))", f, f)}
+		// two embedded structs of the same type in one object occupy different addresses
+		for j, g := range si.Fields {
+			if j != i && isStruct(g.Ty) && g.Sort == si.Fields[i].Sort {
+				gn := x.declareFun(fmt.Sprintf("sub!%s!%s", si.Named, cleanName(g.Name)), []Sort{SInt}, SInt)
+				x.axioms[f] = append(x.axioms[f], fmt.Sprintf("(forall ((a!s Int) (b!s Int)) (! (not (= (%s a!s) (%s b!s))) :pattern ((%s a!s) (%s b!s))))", f, gn, f, gn))
+			}
+		}
 	}
 	return App(f, SInt, addr)
 }
